@@ -133,6 +133,42 @@ Definition static_ok_arguments_values (E : env) (dt : bytes -> option bytes)
                 | None => true
                 end) defs.
 
+(** validateArguments on the node, silent: the three conjuncts, for any argument list with the
+    request's argument names (annotated or not) *)
+Lemma node_conjuncts argdefs (args : list (name * lit)) (A' : list Ast.argument) p :
+  map Ast.a_name A' = map fst args ->
+  fst (ValidatorModel.args_node ValidatorModel.repaired ValidatorModel.id_order [] A' (tr_argdefs argdefs) p) = [] ->
+  (forall a, In a args -> ahas (fst a) argdefs = true) /\ has_dup (map fst args) = false /\
+  (forall ad, In ad argdefs ->
+     is_nonnull (in_type (snd ad)) && match in_default (snd ad) with None => true | Some _ => false end = true ->
+     ahas (fst ad) args = true).
+Proof.
+  intros Hnm Hn.
+  apply args_node_silent in Hn as [He Hr].
+    destruct (ValidatorModel.args_given (tr_argdefs argdefs) A' []) as [e1 by1] eqn:G.
+    cbn [fst snd] in He, Hr. subst e1.
+      destruct (args_given_silent _ _ _ _ G) as (K & D & M). cbn [map app] in D, M.
+      rewrite Hnm in D, M. rewrite dups_nil in D.
+      repeat split; auto.
+      + intros [n l] Hin.
+        assert (Hx : In n (map Ast.a_name A')) by (rewrite Hnm; apply (in_map fst _ _ Hin)).
+        apply in_map_iff in Hx as (a & <- & Ha). specialize (K a Ha). rewrite assoc_tr_argdefs in K.
+        simpl. unfold ahas. destruct (aget (Ast.a_name a) argdefs); [reflexivity|contradiction].
+      + intros [k d] Hin Rq. simpl in Rq |- *.
+        unfold ValidatorModel.args_required, ValidatorModel.id_order in Hr.
+        assert (Y : forall nd, In nd (tr_argdefs argdefs) -> ValidatorModel.required_arg (snd nd) = true ->
+                               Ast.assoc (fst nd) by1 <> None).
+        { intros nd Hnd Rn Z. assert (In (Ast.err Ast.EArgRequired p) (flat_map (fun nd0 => if ValidatorModel.required_arg (snd nd0)
+              then match Ast.assoc (fst nd0) by1 with None => [Ast.err Ast.EArgRequired p]
+                   | Some a => if Ast.is_null (Ast.a_value a) then [Ast.sec Ast.EArgNull2 (Ast.v_pos (Ast.a_value a))] else [] end else []) (tr_argdefs argdefs))).
+          { apply in_flat_map. exists nd. split; auto. rewrite Rn, Z. left; reflexivity. }
+          rewrite Hr in H. contradiction. }
+        assert (Hk : In (k, tr_indef d) (tr_argdefs argdefs)) by (unfold tr_argdefs; apply in_map_iff; exists (k, d); auto).
+        specialize (Y _ Hk). simpl in Y. rewrite required_arg_tr, Rq in Y. specialize (Y eq_refl).
+        destruct (Ast.assoc k by1) as [a|] eqn:Ab; [|contradiction].
+        apply assoc_in_names in Ab. rewrite M in Ab. rewrite mem_map_fst_ahas in Ab. exact Ab.
+Qed.
+
 Theorem arguments_values_from_c04_gen E dt argdefs defs args (A' : list Ast.argument) p :
   map Ast.a_name A' = map fst args ->
   bridgeable E = true -> (no_float E = true \/ float_leaves_agree dt) ->
